@@ -35,8 +35,8 @@ SCRIPTS = '{"silent", "banner", "echo", "close"}'
 DOWNS = '{"up", "refuse", "closeatonce"}'
 AUTH = '{"badhello", "badext", "badkey", "replay", "window", "encmethod", "method", "uid", "ok", "nosession"}'
 HIDDEN = '{"short", "bogus", "replay", "method", "uid"}'
-PORTS_ONE = '{[cfg |-> "fixed", lp |-> "A", first |-> "none"]}'
-PORTS_ALL = '[cfg : {"fixed", "none"}, lp : {"A", "B"}, first : {"none", "A", "B"}]'
+PORTS_ONE = "one"
+PORTS_ALL = "all"
 STATEMENT_INV = "TypeOK RightTarget TargetPrefix PeerOnlyTarget AcceptOnlyValid HangOnlyAuthenticated CloseOnlyIncomplete AllForwarded"
 JVM = {"JAVA_TOOL_OPTIONS": "-Xss64m -XX:ParallelGCThreads=2 -XX:TieredStopAtLevel=1"}   # short jobs: stay in the C1 compiler
 JVM_BIG = {"JAVA_TOOL_OPTIONS": "-Xss64m -XX:ParallelGCThreads=4"}
